@@ -2964,3 +2964,10 @@ void tear_down_simulate() {
   deinit_objects();   // free living name hash table
   deinit_otable();    // free object name hash table
 }
+
+#ifdef NEOLITH_VERIF
+/* verification hooks (H2): read-only views of file-static state */
+int verif_command_giver_stack_depth (void) { return (int)(cgsp - command_giver_stack); }
+int verif_num_objects_this_thread (void) { return num_objects_this_thread; }
+void *verif_restrict_destruct (void) { return restrict_destruct; }
+#endif
